@@ -889,6 +889,34 @@ def api_centroid_func(view, cfg):
             'y#nomask': ('yfit' if fitk else 'y', c2[1], 'x#nomask')}, 1
 
 
+def api_centroid_quadratic_peak(view, cfg):
+    """centroid_quadratic with a peak hint and a search box that an image edge trims (on the x
+    side, the y side, or not at all): under transposition the roles of the axes swap."""
+    from photutils.centroids import centroid_quadratic
+    isrc, side = cfg
+    sc = view.scene
+    if view.kind != 'T' and view.mode != IDENT:
+        raise ValueError('bare centroid functions are checked under transposition only')
+    ix, iy = int(round(sc.pos[isrc, 0])), int(round(sc.pos[isrc, 1]))
+    if side == 'x':
+        sl = (slice(iy - 6, iy + 7), slice(ix - 2, ix + 13))      # source two columns from the left edge
+        xp, yp = 1, 6            # hint one column off; the search box [-2, 5) is trimmed to 5 columns
+    elif side == 'y':
+        sl = (slice(iy - 2, iy + 11), slice(ix - 7, ix + 8))      # source two rows from the bottom edge
+        xp, yp = 7, 1
+    else:
+        sl = (slice(iy - 6, iy + 7), slice(ix - 7, ix + 8))
+        xp, yp = 8, 5
+    cut = sc.img[sl]
+    fit, search = (3, 5), (5, 7)          # (ny, nx)
+    if view.kind == 'T':
+        cut = cut.T.copy()
+        xp, yp = yp, xp
+        fit, search = fit[::-1], search[::-1]
+    c = centroid_quadratic(cut, xpeak=xp, ypeak=yp, fit_boxsize=fit, search_boxsize=search)
+    return {'x': ('x', c[0], 'y'), 'y': ('y', c[1], 'x')}, 1
+
+
 # api name -> (function, configs, modes) ; modes: 'S' translation, 'T' transposition
 APIS = {
     'aperture_photometry': (api_aperture_photometry,
@@ -910,6 +938,7 @@ APIS = {
     'make_model_image': (api_make_model_image, ['gauss2d', 'prf_bbox', 'prf_over'], 'S'),
     'centroid_sources': (api_centroid_sources, ['com', 'quadratic', 'g1', 'g2'], 'ST'),
     'centroid_func': (api_centroid_func, [(f, i) for f in ('com', 'quadratic', 'g1', 'g2') for i in (1, 4)], 'T'),
+    'centroid_quadratic_peak': (api_centroid_quadratic_peak, [(i, sd) for i in (1, 4) for sd in ('x', 'y', 'none')], 'T'),
 }
 
 
